@@ -11,12 +11,34 @@ import (
 
 func main() {
 	if len(os.Args) < 2 {
-		fmt.Println("usage: gosmt run <pkg> <func> [int params...]")
+		fmt.Println("usage: gosmt check <ID> [--tier quick|thorough] | run <pkg> <func> [int params...] | list")
 		os.Exit(2)
 	}
+	os.Setenv("GOMAXPROCS", "8")
 	switch os.Args[1] {
 	case "run":
 		debugRun(os.Args[2:])
+	case "check":
+		if len(os.Args) < 3 {
+			os.Exit(2)
+		}
+		tier := os.Getenv("VERIF_TIER")
+		if tier == "" {
+			tier = "quick"
+		}
+		for i, a := range os.Args {
+			if a == "--tier" && i+1 < len(os.Args) {
+				tier = os.Args[i+1]
+			}
+		}
+		os.Exit(cmdCheck(os.Args[2], tier))
+	case "list":
+		for _, h := range registry {
+			fmt.Printf("%s %s.%s quick=%d thorough=%d\n", h.Prop, h.Pkg, h.Func, len(h.Quick), len(h.Thorough))
+		}
+	default:
+		fmt.Println("unknown command")
+		os.Exit(2)
 	}
 }
 
@@ -32,7 +54,11 @@ func debugRun(args []string) {
 	if err != nil {
 		panic(err)
 	}
-	prog, err := sx.Load("/repo", ov, []string{"./pkg/" + pkg, "./pkg/zzvrf"})
+	pats := []string{"./pkg/" + pkg, "./pkg/zzvrf"}
+	if e := os.Getenv("GOSMT_EXTRA"); e != "" {
+		pats = append(pats, "./pkg/"+e)
+	}
+	prog, err := sx.Load("/repo", ov, pats)
 	if err != nil {
 		fmt.Println(err)
 		os.Exit(2)
@@ -43,8 +69,13 @@ func debugRun(args []string) {
 		fmt.Println("no such function")
 		os.Exit(2)
 	}
-	x := sx.NewExec(prog.Prog, sx.Config{Progress: 200, Trace: os.Getenv("GOSMT_TRACE") != "", InitPkgs: []string{sx.ModPath + "/pkg/" + pkg},
-		StubPkgs: []string{"github.com/rs/zerolog", "expvar"}})
+	unw := 0
+	if u := os.Getenv("GOSMT_UNWIND"); u != "" {
+		unw, _ = strconv.Atoi(u)
+	}
+	x := sx.NewExec(prog.Prog, sx.Config{Progress: 500, Trace: os.Getenv("GOSMT_TRACE") != "", InitPkgs: []string{sx.ModPath + "/pkg/" + pkg},
+		StubPkgs: stubPkgs, MaxUnwind: unw})
+	x.InstallRedirects(prog)
 	var vals []sx.Value
 	for _, p := range params {
 		vals = append(vals, x.TB().Int64(p))
@@ -63,33 +94,17 @@ func debugRun(args []string) {
 		x.Run(f, vals)
 	}()
 	fmt.Printf("executed in %v: states=%d merges=%d forks=%d instrs=%d terms=%d obligations=%d\n", time.Since(t1), x.NStates, x.NMerges, x.NForks, x.NInstr, x.TB().NTerms, len(x.Obligations))
-	res, st, err := x.Discharge(solverName(), 20*time.Second, nil, func(m string) { fmt.Println("  ..", m) })
+	res, st, err := x.Discharge(solverName(), 60*time.Second, nil, nil)
 	if err != nil {
 		panic(err)
 	}
 	for _, r := range res {
 		fmt.Printf("%-8s %-7s %5dms %s @ %s\n", r.Ob.Kind, r.Res, r.Millis, r.Ob.Label, r.Ob.Pos)
 		if r.Res == sx.Sat && r.Ob.Kind != "cover" {
-			fmt.Printf("   model: %v\n", showAssign(r.Assign))
+			fmt.Printf("   model: %v\n", renderAssign(r.Assign))
 		}
 	}
 	fmt.Printf("queries=%d solver=%dms\n", st.Queries, st.SolverMs)
-}
-
-func showAssign(a map[string]interface{}) string {
-	s := ""
-	for k, v := range a {
-		if bs, ok := v.([]int); ok {
-			b := make([]byte, len(bs))
-			for i := range bs {
-				b[i] = byte(bs[i])
-			}
-			s += fmt.Sprintf("%s=%q ", k, string(b))
-		} else {
-			s += fmt.Sprintf("%s=%v ", k, v)
-		}
-	}
-	return s
 }
 
 func solverName() string {
